@@ -59,6 +59,18 @@ def compute(prog, name, extra_opaque=(), effects=False, sinks=None, closures=Fal
     out = []
     for e in ex:
         out.append({'cls': e['cls'], 'label': e['label'], 'trigger': e['trigger'], 'atoms': e['atoms'], 'full': e['full'], 'span': str(e['span'])})
+    # order of the effects of one body: `a before b` when every path to b's call has passed a's call (dominance)
+    order = set()
+    if sinks:
+        from .cfg import CFG
+        cfg = CFG(b)
+        eff = [(e['bid'], re.match(r'^(?:in closure: )?call ([^(]+)\(', e['label'])) for e in ex if e.get('effect') and not e['label'].startswith('in closure: ')]
+        eff = [(bid, m.group(1)) for bid, m in eff if m]
+        for ba, ka in eff:
+            for bb, kb in eff:
+                if ba != bb and ka != kb and cfg.dominates(ba, bb):
+                    order.add('%s before %s' % (ka, kb))
+    compute.last_order = sorted(order)
     return out, getattr(b, '_inlined', [])
 
 
@@ -154,5 +166,12 @@ def check(ctx, rule, name):
     for ok, kind, desc, detail in compare(ent['exits'], actual):
         n += 1
         ctx.ob(rule, name, '%s: %s' % (kind, desc), ok, **detail)
+    for o in ent.get('order', []):
+        n += 1
+        a, _, bname = o.partition(' before ')
+        present = {x for y in compute.last_order for x in y.split(' before ')} | {m.group(1) for e in actual for m in [re.match(r'^(?:in closure: )?call ([^(]+)\(', e['label'])] if m}
+        # only meaningful while both effects still exist (their removal is reported by the entries above)
+        ok = o in compute.last_order or not (a in present and bname in present)
+        ctx.ob(rule, name, 'effect order kept: %s' % o, ok, problem=None if ok else 'the second effect is now reachable without the first having been performed (crash / failure between them leaves the later one alone)')
     ctx.floor(rule, 'census obligations for ' + name, n, max(1, ent.get('floor', 1)))
     return actual
